@@ -11,7 +11,8 @@ CLAIMED = {
     "C14": ("MIR dominator/path-condition analysis of #[target_feature] call sites with crate-wide who-may-write "
             "inference of feature flags and tier enums (R-TF); who-may-call rule on signed 8-bit lane comparisons in compare "
             "kernels with bias-idiom recognition (R-SIGNED); no implicit-length PCMPISTR* on byte slices and no narrowing of 64-lane "
-            "masks (R-LANES); movemask restricted to the filled lanes of a zero-padded scratch array (R-PADMASK)",
+            "masks (R-LANES); movemask restricted to the filled lanes of a zero-padded scratch array (R-PADMASK); pointer-identity fast "
+            "paths also compare lengths (R-IDENTITY)",
             "static rules over all MIR bodies: decide the dispatch-soundness clause (kernels entered only under an "
             "implying runtime feature check; portable fallback exists) for every call site in the crate; it does not "
             "decide that kernels compute the scalar function; plus: no cmp/compare kernel orders bytes with an unbiased "
